@@ -155,6 +155,10 @@ mut("C18-output-dir-error-not-raised", "emit.c",
     "	if (!osDirIsThere(dir)) return -1;", "	if (!osDirIsThere(dir)) return 1;")
 
 
+mut("C18-revert-split-part-name-fix", "emit.c",
+    "					if (strEqual(fnnew, fnameName(fn)))\n", "					if (false)\n")
+
+
 def main():
     out = os.path.join(os.path.dirname(os.path.abspath(__file__)), "mutants")
     os.makedirs(out, exist_ok=True)
